@@ -182,6 +182,10 @@ type blockEnv struct {
 	rew     *big.Int
 	txIndex int
 	pending []string // setup lines not yet committed
+	used0   uint64
+	rew0    *big.Int
+	// roots of the committed pre-state (set by seal)
+	root, valRoot, stakingRoot common.Hash
 }
 
 func newBlock(version int, gasLimit, used0 uint64, rew0 *big.Int) (*blockEnv, error) {
@@ -210,6 +214,7 @@ func newBlock(version int, gasLimit, used0 uint64, rew0 *big.Int) (*blockEnv, er
 	u := used0
 	b.used = &u
 	b.rew = new(big.Int).Set(rew0)
+	b.used0, b.rew0 = used0, new(big.Int).Set(rew0)
 	return b, nil
 }
 
@@ -226,6 +231,7 @@ func (b *blockEnv) seal() error {
 		return err
 	}
 	b.st = st
+	b.root, b.valRoot, b.stakingRoot = root, valRoot, stakingRoot
 	return nil
 }
 
